@@ -14,6 +14,14 @@ func (l *Local) Readdir(offset uint64, count uint32) (p9.Dirents, error) {
 		cursor = uint64(0)
 	)
 
+	// offset is the Offset of the last entry an earlier call returned, i.e.
+	// the number of entries the caller already has, counted from the start
+	// of the directory. The position of l.file is shared by all calls on
+	// this file, so start from the beginning every time and skip those.
+	if _, err := l.file.Seek(0, io.SeekStart); err != nil {
+		return nil, err
+	}
+
 	for len(p9Ents) < int(count) {
 		singleEnt, err := l.file.Readdirnames(1)
 
@@ -26,8 +34,8 @@ func (l *Local) Readdir(offset uint64, count uint32) (p9.Dirents, error) {
 		// we consumed an entry
 		cursor++
 
-		// cursor \in (offset, offset+count)
-		if cursor < offset || cursor > offset+uint64(count) {
+		// The entries up to and including offset were returned before.
+		if cursor <= offset {
 			continue
 		}
 
